@@ -189,16 +189,16 @@ func TestVerif_C19Agent(t *testing.T) {
 	defer sink.Close()
 	root := t.TempDir()
 
-	n := r.N(70, 600)
+	n := r.N(90, 600)
 	r.Cases("hist", n, func(ci int, rng *verifkit.Rand) { c19aHistory(r, ci, rng, sink, dns, root) })
 
 	r.Require("probes", 800)
 	r.Require("connected_permitted", 150)
 	r.Require("refused_not_permitted", 150)
-	r.Require("manage_add_existing", 30)
-	r.Require("manage_remove_ok", 50)
-	r.Require("manage_remove_after_readd", 15)
-	r.Require("probes_into_removed_route", 60)
+	r.Require("manage_add_existing", 25)
+	r.Require("manage_remove_ok", 35)
+	r.Require("manage_remove_after_readd", 8)
+	r.Require("probes_into_removed_route", 40)
 	r.Require("nothing_configured_probes", 20)
 	r.Require("refused_ipv4_dest_by_ipv6_only_config", 60)
 	r.Require("ipv6_literal_not_permitted", 20)
